@@ -852,6 +852,58 @@ enum DrainResult {
     HitDeadline, // some entries left, but we're now past the deadline
 }
 
+// Verification hook (compiled only with `--cfg metrique_verif`): lets a harness drive the real
+// `WakerTracker` step by step with real `FlushSignal`s, the way `Receiver::run` does.
+#[cfg(metrique_verif)]
+#[doc(hidden)]
+pub mod __verif {
+    use super::{DrainResult, FlushSignal, WakerTracker};
+
+    pub struct WakerTrackerDriver {
+        tracker: WakerTracker,
+        sender: std::sync::mpsc::Sender<FlushSignal>,
+    }
+
+    impl Default for WakerTrackerDriver {
+        fn default() -> Self {
+            let (sender, receiver) = std::sync::mpsc::channel();
+            Self {
+                tracker: WakerTracker::new(receiver),
+                sender,
+            }
+        }
+    }
+
+    impl WakerTrackerDriver {
+        /// what `Inner::flush_async` does, minus the unpark
+        pub fn send_flush(&self) -> tokio::sync::oneshot::Receiver<()> {
+            let (channel, receiver) = tokio::sync::oneshot::channel();
+            self.sender.send(FlushSignal { channel }).ok();
+            receiver
+        }
+
+        /// one `handle_waiting_wakers` call; returns whether the stream was flushed
+        pub fn handle(&mut self, queue_capacity: usize, drained: bool, entry_count: usize) -> bool {
+            let mut flushed = false;
+            self.tracker.handle_waiting_wakers(
+                || queue_capacity,
+                || flushed = true,
+                if drained {
+                    DrainResult::Drained
+                } else {
+                    DrainResult::HitDeadline
+                },
+                entry_count,
+            );
+            flushed
+        }
+
+        pub fn will_progress_on_drained_queue(&mut self) -> bool {
+            self.tracker.will_progress_on_drained_queue()
+        }
+    }
+}
+
 #[cfg(test)]
 #[allow(deprecated)]
 mod tests {
